@@ -1,5 +1,6 @@
 use crate::math::{Comparison, OptimizationType, VariableType};
 use crate::parser::model_transformer::DomainVariable;
+use crate::transformers::LinearModel;
 use indexmap::IndexMap;
 use serde::de::DeserializeOwned;
 use serde::{Deserialize, Serialize};
@@ -330,4 +331,28 @@ where
             }
         })
         .collect::<Vec<_>>()
+}
+
+/// Verdict of a model without variables: every row is a comparison between
+/// constants, and a violated one (for example `0 = 1` from a contradictory
+/// constraint) makes the model infeasible. `None` when the model has variables.
+pub(crate) fn variable_free_verdict(lp: &LinearModel) -> Option<Result<(), SolverError>> {
+    if !lp.domain().is_empty() {
+        return None;
+    }
+    let violated = lp.constraints().iter().any(|row| {
+        let rhs = row.rhs();
+        match row.constraint_type() {
+            Comparison::LessOrEqual => !(0.0 <= rhs),
+            Comparison::GreaterOrEqual => !(0.0 >= rhs),
+            Comparison::Equal => rhs != 0.0,
+            Comparison::Less => !(0.0 < rhs),
+            Comparison::Greater => !(0.0 > rhs),
+        }
+    });
+    Some(if violated {
+        Err(SolverError::Infeasible)
+    } else {
+        Ok(())
+    })
 }
